@@ -912,3 +912,286 @@ func init() {
 		Gen:  c10OFileHistory,
 	})
 }
+
+// ---------------------------------------------------------------------------------------
+// (d) read-boundaries at the start of the input: the result depends on the BYTES, not on how
+// many of them the first Read calls deliver. Inputs that start with bytes that are not JSON -- the
+// UTF-8 byte order mark EF BB BF, parts of it (EF, EF BB), other marks and invisible
+// characters -- are a JSON input error however they arrive; inputs without such a prefix
+// succeed however they arrive. Every chunking of the first four bytes (all 8 compositions of
+// 4, then the rest), each also with empty reads in between and with the last bytes delivered
+// together with io.EOF, must agree with the unchunked run (Group) and with the model.
+// ---------------------------------------------------------------------------------------
+
+var c10Prefixes = []struct {
+	bytes string
+	what  string
+}{
+	{"\xef\xbb\xbf", "UTF-8 byte order mark"}, {"\xef", "first byte of the mark"}, {"\xef\xbb", "first two bytes of the mark"}, {"\xef\xbb\xbf\xef\xbb\xbf", "the mark twice"},
+	{"\xef\xbb\xbf ", "the mark and a blank"}, {" \xef\xbb\xbf", "a blank and the mark"}, {"\n\xef\xbb\xbf", "a newline and the mark"}, {"\xef\xbb\xbe", "almost the mark"}, {"\xef\xbf\xbe", "U+FFFE"},
+	{"\xfe\xff", "UTF-16 BE mark"}, {"\xff\xfe", "UTF-16 LE mark"}, {"\x00", "NUL"}, {"\xc2\xa0", "no-break space"}, {"\xe2\x80\x8b", "zero width space"}, {"\xe2\x81\xa0", "word joiner"},
+	{"\x1e", "record separator (RFC 7464)"}, {"\x0c", "form feed"}, {"\x0b", "vertical tab"},
+	{"", "no prefix"}, {" ", "a blank"}, {"\n\t\r ", "white space"}, {"", "no prefix"},
+}
+
+var c10PrefixProgs = []string{
+	`{ print $.name, $.n }`,
+	"BEGIN { print \"start\" }\n{ print \"v\", $ }\nEND { print \"end\" }",
+	"BEGINFILE { print \"B\", $file }\nENDFILE { print \"E\" }",
+	`BEGIN { print "only begin" }`,
+}
+
+var c10PrefixDocs = []string{
+	`[{"name":"a","n":1},{"name":"b","n":2}]` + "\n", `{"name":"solo","n":0}`, "1 2 3\n", `"str"`, "[]", "", `[1,2`, "nul", "7",
+}
+
+// all compositions of 4: the sizes of the first reads
+var c10HeadSplits = [][]int{{4}, {1, 3}, {2, 2}, {3, 1}, {1, 1, 2}, {1, 2, 1}, {2, 1, 1}, {1, 1, 1, 1}}
+
+func c10ReadBoundaries(r *rand.Rand, tier string, emit func(Case)) {
+	fields := []string{"class", "out", "file"}
+	rounds := tierN(tier, 2, 12)
+	gid := 0
+	for round := 0; round < rounds; round++ {
+		for pi, pf := range c10Prefixes {
+			prog := c10PrefixProgs[(pi+round)%len(c10PrefixProgs)]
+			doc := c10PrefixDocs[r.Intn(len(c10PrefixDocs))]
+			if round == 0 {
+				doc = c10PrefixDocs[0]
+			}
+			data := []byte(pf.bytes + doc)
+			// where the prefixed input stands: alone, as the second file, as the first of two
+			var before, after []File
+			switch r.Intn(5) {
+			case 0:
+				before = []File{{Name: "first.json", Data: []byte("[{\"name\":\"z\",\"n\":26}]\n")}}
+			case 1:
+				after = []File{{Name: "last.json", Data: []byte("[{\"name\":\"y\",\"n\":25}]\n")}}
+			}
+			mk := func(f File) []File {
+				return append(append(append([]File{}, before...), f), after...)
+			}
+			gid++
+			g := fmt.Sprintf("head-%d", gid)
+			name := "in.json"
+			plain := RunReq(prog, nil, mk(File{Name: name, Data: data}), false)
+			meta := func(how string) map[string]string {
+				return metaProg(prog, "prefix", pf.what+" "+strconv.Quote(pf.bytes), "input", strconv.Quote(string(data)), "delivery", how,
+					"files", fmt.Sprintf("%d before, %d after", len(before), len(after)), "row", pf.what)
+			}
+			isJSONStart := strings.TrimLeft(pf.bytes, " \n\t\r") == ""
+			emit(Case{ID: g + "/whole", Req: plain, Fields: fields, Group: g, GroupFields: fields, Meta: meta("as much as the decoder asks for"), Fresh: round == 0,
+				NonTrivial: func(i Resp) bool { return i["class"] == "ok" || i["class"] == "json" },
+				Oracle: func(i Resp) string {
+					if !isJSONStart && i["class"] != "json" {
+						return fmt.Sprintf("the input starts with %s, which is not JSON: outcome %s instead of a JSON input error", pf.what, i["class"])
+					}
+					if !isJSONStart && string(i.Bytes("file")) != name {
+						return fmt.Sprintf("JSON error names %q, expected %q", i.Bytes("file"), name)
+					}
+					return ""
+				}})
+			variant := func(ch []int, exact, dataErr bool, how string) {
+				f := File{Name: name, Data: data, Chunks: ch, Exact: exact, DataErr: dataErr}
+				emit(Case{ID: g + "/" + how, Req: RunReq(prog, nil, mk(f), false), ModelReq: plain, Fields: fields, Group: g, GroupFields: fields, Meta: meta(how),
+					NonTrivial: func(i Resp) bool { return i["class"] == "ok" || i["class"] == "json" }})
+			}
+			for _, split := range c10HeadSplits {
+				var ch []int
+				used := 0
+				for _, c := range split {
+					if used+c > len(data) {
+						break
+					}
+					ch = append(ch, c)
+					used += c
+				}
+				how := fmt.Sprintf("first reads %v, then the rest", ch)
+				variant(ch, false, false, how)
+				if chance(r, 0.5) {
+					variant(ch, true, false, how+" (exact bursts)")
+				}
+				if chance(r, 0.5) {
+					// empty reads between the pieces
+					var z []int
+					for _, c := range ch {
+						if chance(r, 0.6) {
+							z = append(z, -1)
+						}
+						z = append(z, c)
+					}
+					variant(z, false, chance(r, 0.3), how+" with empty reads "+fmt.Sprint(z))
+				}
+			}
+			variant(c03Ones(len(data)), false, false, "one byte per read")
+			variant(nil, false, true, "everything together with io.EOF")
+			variant([]int{-1, -1, len(data)}, false, false, "two empty reads first")
+		}
+	}
+	// the same through the real binary: the first bytes of stdin arrive, then nothing for a
+	// while, then the rest (a writer that flushed inside the mark)
+	if os.Getenv("JQAWK_BIN") == "" {
+		return
+	}
+	nb := tierN(tier, 8, 60)
+	for i := 0; i < nb; i++ {
+		pf := c10Prefixes[i%5]
+		if i%4 == 3 {
+			pf = c10Prefixes[len(c10Prefixes)-1-i%3]
+		}
+		prog := c10PrefixProgs[i%2]
+		data := []byte(pf.bytes + c10PrefixDocs[0])
+		cut := 1 + i%3
+		if cut > len(data) {
+			cut = len(data)
+		}
+		g := fmt.Sprintf("headbin-%d", i)
+		meta := func(how string) map[string]string {
+			return metaProg(prog, "prefix", pf.what+" "+strconv.Quote(pf.bytes), "input", strconv.Quote(string(data)), "delivery", how)
+		}
+		plain := CliReq([]string{prog}, data, true, nil, "")
+		emit(Case{ID: g + "/pipe", Req: plain, Fields: c14CliFields, Group: g, Meta: meta("stdin pipe, written at once"), Oracle: c14Basic, NonTrivial: c14NT})
+		emit(Case{ID: g + "/file", Req: CliStdinKindReq([]string{prog}, data, "file", nil, ""), ImplOnly: true, Group: g, GroupFields: []string{"exit", "out", "err"},
+			Meta: meta("stdin is a regular file"), Oracle: c14Basic, NonTrivial: c14NT})
+		emit(Case{ID: g + "/staged", Req: CliStagedReq([]string{prog}, "stdin", data[:cut], data[cut:], nil, 1) + ",d=200", ModelReq: plain, Fields: c14CliFields, Group: g,
+			GroupFields: []string{"exit", "out", "err"}, Meta: meta(fmt.Sprintf("stdin pipe: %d byte(s), a pause of 200 ms, the rest", cut)), Oracle: c14Basic, NonTrivial: c14NT})
+	}
+}
+
+// ---------------------------------------------------------------------------------------
+// (e) repeat-after-fault: a stream of 2-400 good values followed by a malformed tail (stray
+// byte, open bracket, cut literal, failing reader). However the decoding is scheduled, the
+// outcome is a function of the bytes: every repetition -- 10-20 in pooled worker processes,
+// 5 in brand-new processes, 3 through the real binary -- gives the same class AND the same
+// output, and that output ends with the output of the last good value.
+// ---------------------------------------------------------------------------------------
+
+var c10TailProgs = []struct {
+	text string
+	slow bool
+}{
+	{"{ print \"v\", $ }\nENDFILE { print \"E\" }", false},
+	{"{ for (i = 0; i < 300; i++) { s = s + i }\n print \"v\", $ }\nENDFILE { print \"E\" }", true},
+	{"BEGINFILE { for (i = 0; i < 2000; i++) { s = s + i } }\n{ print \"v\", $ }\nENDFILE { print \"E\" }", true},
+	{"{ print \"v\", $ }\nENDFILE { for (i = 0; i < 2000; i++) { s = s + i }\n print \"E\" }", true},
+}
+
+func c10RepeatAfterFault(r *rand.Rand, tier string, emit func(Case)) {
+	fields := []string{"class", "out", "file"}
+	n := tierN(tier, 36, 400)
+	haveBin := os.Getenv("JQAWK_BIN") != ""
+	for i := 0; i < n; i++ {
+		nv := pick(r, []int{2, 2, 3, 4, 5, 8, 20, 50, 120, 300, 400})
+		var sb, want strings.Builder
+		id := 0
+		shape := i % 4
+		switch shape {
+		case 0: // one array of nv-1 numbers, then one more scalar (the seeded witness)
+			parts := make([]string, nv-1)
+			for k := range parts {
+				id++
+				parts[k] = strconv.Itoa(id)
+				fmt.Fprintf(&want, "v %d\n", id)
+			}
+			id++
+			sb.WriteString("[" + strings.Join(parts, ",") + "]\n" + strconv.Itoa(id) + "\n")
+			fmt.Fprintf(&want, "E\nv %d\nE\n", id)
+		case 1: // JSONL of scalars
+			for k := 0; k < nv; k++ {
+				id++
+				sb.WriteString(strconv.Itoa(id) + pick(r, []string{"\n", " "}))
+				fmt.Fprintf(&want, "v %d\nE\n", id)
+			}
+		case 2: // JSONL of small arrays
+			for k := 0; k < nv; k++ {
+				m := r.Intn(4)
+				parts := make([]string, m)
+				for j := range parts {
+					id++
+					parts[j] = strconv.Itoa(id)
+					fmt.Fprintf(&want, "v %d\n", id)
+				}
+				sb.WriteString("[" + strings.Join(parts, ", ") + "]" + pick(r, []string{"\n", "", " "}))
+				want.WriteString("E\n")
+			}
+		default: // a long first value, a few short ones
+			parts := make([]string, 200+r.Intn(600))
+			for k := range parts {
+				id++
+				parts[k] = strconv.Itoa(id)
+				fmt.Fprintf(&want, "v %d\n", id)
+			}
+			sb.WriteString("[" + strings.Join(parts, ",") + "]\n")
+			want.WriteString("E\n")
+			for k := 0; k < 1+nv%4; k++ {
+				id++
+				sb.WriteString(strconv.Itoa(id) + "\n")
+				fmt.Fprintf(&want, "v %d\nE\n", id)
+			}
+		}
+		tail := pick(r, []string{"@", "]", "}", "[1,2", `{"a":`, "tru", `"open`, ",", "[1,]", "\xef\xbb\xbf", ""})
+		ioErr := tail == ""
+		data := []byte(sb.String() + tail)
+		p := c10TailProgs[r.Intn(len(c10TailProgs))]
+		if (nv > 20 || shape == 3) && p.slow {
+			p = c10TailProgs[0]
+		}
+		name := "stream.jsonl"
+		files := []File{{Name: name, Data: data, IOErr: ioErr}}
+		if chance(r, 0.2) {
+			files = append(files, File{Name: "never-read.json", Data: []byte("[999]")})
+		}
+		req := RunReq(p.text, nil, files, false)
+		g := fmt.Sprintf("tail-%d", i)
+		expected := want.String()
+		meta := metaProg(p.text, "values", strconv.Itoa(nv), "shape", []string{"array then scalar", "JSONL of scalars", "JSONL of arrays", "long first value"}[shape],
+			"tail", strconv.Quote(tail), "read error at the end", fmt.Sprint(ioErr), "input (start)", short(strconv.Quote(string(data))))
+		oracle := func(i Resp) string {
+			if i["class"] != "json" {
+				return "the stream ends with malformed input / a read error: outcome " + i["class"] + " instead of a JSON input error"
+			}
+			if got := string(i.Bytes("out")); got != expected {
+				lg, le := lastLine(strings.TrimSuffix(strings.TrimSuffix(got, "E\n"), "\n")), lastLine(strings.TrimSuffix(strings.TrimSuffix(expected, "E\n"), "\n"))
+				return fmt.Sprintf("the output must hold every good value up to the last one: %d bytes ending with %q, expected %d bytes ending with %q", len(got), lg, len(expected), le)
+			}
+			return ""
+		}
+		reps := 10 + r.Intn(11)
+		for rep := 0; rep < reps; rep++ {
+			emit(Case{ID: fmt.Sprintf("%s/%d", g, rep), Req: req, Fields: fields, Group: g, GroupFields: fields, Meta: meta, Oracle: oracle,
+				ImplOnly: rep > 0, Fresh: rep < 5,
+				NonTrivial: func(i Resp) bool { return i["class"] == "json" && i["out"] != "-" }})
+		}
+		if haveBin && !ioErr && len(files) == 1 {
+			for rep := 0; rep < 3; rep++ {
+				emit(Case{ID: fmt.Sprintf("%s/bin%d", g, rep), Req: CliReq([]string{p.text, name}, nil, false, []CliFile{{Name: name, Data: data}}, ""), Fields: c14CliFields,
+					ImplOnly: rep > 0, Group: g + "b", GroupFields: []string{"exit", "out", "stderr"}, Meta: meta, NonTrivial: c14NT,
+					Oracle: func(i Resp) string {
+						if w := c14Basic(i); w != "" || i["exit"] == "" {
+							return w
+						}
+						if i["exit"] == "0" {
+							return "the stream ends with malformed input: exit status 0"
+						}
+						if got := string(i.Bytes("out")); got != expected {
+							return fmt.Sprintf("the binary's stdout must hold every good value up to the last one: %d bytes, expected %d bytes ending with %q", len(got), len(expected), lastLine(strings.TrimSuffix(expected, "E\n")))
+						}
+						return ""
+					}})
+			}
+		}
+	}
+}
+
+func init() {
+	register(Family{
+		Name: "read-boundaries", Prop: "C10",
+		Rule: "inputs that start with bytes that are not JSON — the UTF-8 byte order mark EF BB BF, its first byte, its first two bytes, the mark twice, the mark around white space, near-marks, UTF-16 marks, NUL, no-break / zero-width spaces, RS, form feed — or with nothing / white space, followed by an array of records, a record, scalars, nothing, or truncated JSON; alone, as the second file, or followed by another file; delivered as much as the decoder asks for (compared with the model; reference of the Group; first round also in a fresh process) and in EVERY chunking of the first four bytes (1+3, 2+2, 3+1, 1+1+2, 1+2+1, 2+1+1, 1+1+1+1, 4, then the rest), as exact bursts, with empty reads in between, one byte per read, everything together with io.EOF: all deliveries must agree on class, out, file (Group) and with the model; oracle: a non-JSON prefix is a JSON input error naming the file. Through the REAL BINARY: the same bytes on a stdin pipe at once, from a regular file, and staged (1-3 bytes, a pause, the rest): same exit status, stdout, diagnostic present",
+		Gen:  c10ReadBoundaries,
+	})
+	register(Family{
+		Name: "repeat-after-fault", Prop: "C10",
+		Rule: "streams of 2-400 good values (one array then a scalar, JSONL of scalars, JSONL of small arrays, one long value then short ones) followed by a malformed tail (stray byte, open bracket, cut literal or string, lone comma, a byte order mark) or a failing reader, under rules that are fast or deliberately slower than the decoder (busy loops in BEGINFILE / pattern / ENDFILE rules), sometimes followed by a second file that must never be read; the identical request 10-20 times in pooled worker processes, the first five also in brand-new processes (Fresh), and three times through the real binary: one Group on class, out, file (binary: exit, stdout, stderr); the first compared with the model; closed-form oracle: a JSON input error after the complete output of EVERY good value, the last one included",
+		Gen:  c10RepeatAfterFault,
+	})
+}
